@@ -249,7 +249,8 @@ class Check:
         if self.failures:
             clause, case = self.failures[0]
             path = self.write_replay("failing-input", {"clause": clause, "case": case,
-                                                      "all_failures": self.failures[:20], "broken": broken})
+                                                      "all_failures": self.failures[:20], "broken": broken,
+                                                      "disagreements": self.disagreements[:20]})
             lines.append("VIOLATION property=%s replay=%s" % (self.prop_id, path))
             violations = len(self.failures)
         elif broken and DEFER_BROKEN:
